@@ -29,6 +29,7 @@ Section SelfContained.
   | Assign (o' o : nat)            (* o' = o *)
   | Use (o : nat) (n : string) (a : arg)
   | Destroy (o : nat)
+  | Mutate (o : nat) (n : string) (p : param)   (* re-parameterise o in place through the mutator n (setPrimes, read(istream&)) *)
   | Env (st : mems).               (* anything else in the process: other classes, other libraries touch the statics *)
 
   Definition upd (f : nat -> option (param * mems)) (o : nat) (v : option (param * mems)) :=
@@ -72,6 +73,14 @@ Section SelfContained.
         | _, _ => (σ, None)
         end
     | Destroy o => ({| objs := upd (objs σ) o None; stat := stat σ |}, None)
+    | Mutate o n p' =>
+        match objs σ o, find_method d n with
+        | Some (_, s), Some md =>
+            if m_mutator md      (* the members it writes get the values of the new parameters, the others keep theirs *)
+            then ({| objs := upd (objs σ) o (Some (p', fun x => if mem x (m_writes md) then init p' x else s x)); stat := stat σ |}, None)
+            else (σ, None)
+        | _, _ => (σ, None)
+        end
     | Env st => ({| objs := objs σ; stat := st |}, None)
     end.
 
@@ -86,12 +95,12 @@ Section SelfContained.
 
   (* destroying (or copying, assigning to, using) one object leaves every other object as it was *)
   Definition target (e : event) : option nat :=
-    match e with Construct o _ | Copy o _ | Assign o _ | Use o _ _ | Destroy o => Some o | Env _ => None end.
+    match e with Construct o _ | Copy o _ | Assign o _ | Use o _ _ | Destroy o | Mutate o _ _ => Some o | Env _ => None end.
   Definition Frame_stmt : Prop :=
     forall σ e o, target e <> Some o -> objs (fst (step σ e)) o = objs σ o.
   Lemma frame : Frame_stmt.
   Proof.
-    intros σ e o H. destruct e as [o1 p | o1 o2 | o1 o2 | o1 n a | o1 | st]; cbn [step target] in H |- *;
+    intros σ e o H. destruct e as [o1 p | o1 o2 | o1 o2 | o1 n a | o1 | o1 n p | st]; cbn [step target] in H |- *;
       try reflexivity;
       assert (o <> o1) as Hn by (intro; subst; apply H; reflexivity).
     - cbn. apply upd_other; exact Hn.
@@ -101,6 +110,8 @@ Section SelfContained.
     - destruct (objs σ o1) as [[p s]|]; [|reflexivity]. destruct (find_method d n); [|reflexivity].
       destruct (m_const _); [|reflexivity]. cbn. apply upd_other; exact Hn.
     - cbn. apply upd_other; exact Hn.
+    - destruct (objs σ o1) as [[p0 s]|]; [|reflexivity]. destruct (find_method d n); [|reflexivity].
+      destruct (m_mutator _); [|reflexivity]. cbn. apply upd_other; exact Hn.
   Qed.
 
   (* "the code respects the description" *)
@@ -113,6 +124,10 @@ Section SelfContained.
     forall s st a x, existsb (writes_member_b x) (m_effects md) = false -> eff_own (m_name md) s st a x = s x.
   Hypothesis default_members : forall p x mp,
     cd_copy d = Some mp -> lookup x mp = Some SrcDefault -> init p x = dflt x.
+  (* decided per class (mutator_offenders d = []): every re-parameterising member is accepted by mutator_ok_b *)
+  Hypothesis mutators_ok : forall md, In md (cd_methods d) -> m_mutator md = true -> mutator_ok_b d md = true.
+  (* members outside cd_params do not depend on the construction parameters *)
+  Hypothesis param_members : forall p p' x, mem x (cd_params d) = false -> init p x = init p' x.
 
   Definition Inv (σ : state) : Prop :=
     forall o p s, objs σ o = Some (p, s) -> forall x, stable_b d x = true -> s x = init p x.
@@ -142,7 +157,7 @@ Section SelfContained.
 
   Lemma step_inv : forall σ e, Inv σ -> Inv (fst (step σ e)).
   Proof.
-    intros σ e HI. destruct e as [o p | o' o | o' o | o n a | o | st]; cbn [step].
+    intros σ e HI. destruct e as [o p | o' o | o' o | o n a | o | o n p' | st]; cbn [step].
     - (* Construct *)
       intros o1 p1 s1 H x Hx; cbn in H. unfold upd in H. destruct (Nat.eqb o1 o).
       + inversion H; subst; reflexivity.
@@ -178,6 +193,19 @@ Section SelfContained.
       + eapply HI; eauto.
     - (* Destroy *)
       intros o1 p1 s1 H x Hx; cbn in H. unfold upd in H. destruct (Nat.eqb o1 o); [discriminate|]. eapply HI; eauto.
+    - (* Mutate *)
+      destruct (objs σ o) as [[p s]|] eqn:Eo; [|exact HI].
+      destruct (find_method d n) as [md|] eqn:Ef; [|exact HI].
+      destruct (m_mutator md) eqn:Em; [|exact HI].
+      destruct (find_method_In _ _ Ef) as [Hin _].
+      pose proof (mutators_ok md Hin Em) as Hk.
+      intros o1 p1 s1 H x Hx; cbn in H. unfold upd in H. destruct (Nat.eqb o1 o) eqn:E1; [|eapply HI; eauto].
+      inversion H; subst. destruct (mem x (m_writes md)) eqn:Ew; [reflexivity|].
+      rewrite (HI o p s Eo x Hx). apply param_members.
+      unfold mutator_ok_b in Hk. apply andb_true_iff in Hk. destruct Hk as [Hk _].
+      destruct (mem x (cd_params d)) eqn:Ep; [|reflexivity].
+      rewrite forallb_forall in Hk. unfold mem in Ep. apply existsb_exists in Ep. destruct Ep as [y [Hy Ey]].
+      apply String.eqb_eq in Ey. subst y. rewrite (Hk x Hy) in Ew. discriminate.
     - (* Env *)
       exact HI.
   Qed.
